@@ -81,4 +81,8 @@ CountEqualsDef == pc = "sort" => \A thr \in Thresholds :
 \* behaviour generation: one case per initial state
 EmitCase == pc = "sort" => PrintT(<<"CASE", n, rank, tgt>>)
 GenOnly == pc = "sort"   \* generation configs do not explore beyond the initial states
+\* ---- liveness (checked by Tdc_live.cfg): under weak fairness of the next-state action every behaviour comes to rest
+\* in a state without successor -- the modelled procedure terminates for every input, schedule and fault inside the bounds
+FairSpec == Spec /\ WF_vars(Next)
+Halts == <>[](~ENABLED Next)
 =============================================================================
